@@ -36,6 +36,30 @@ def base_programs():
                                [call("MK", binds={"n": self_("n")}),
                                 call("USE", binds={"a": ref("MK", "pt", "a"), "bs": ref("MK", "pts", "b"), "whole": ref("MK", "pt")})],
                                {"s": ref("USE", "s"), "aas": ref("MK", "pts", "a")})], "TOP", {"n": 1}))
+    # a struct output of a middle pipeline (which itself calls a pipeline) used only through
+    # a projection two members deep; other outputs of the same pipelines unused
+    P.append(program("ref_deep", [mro.struct("INNER", "int value, int other"), mro.struct("RES", "INNER inner, int count")],
+                     [stage("MK", "int n", "RES res, int side", {"res": const({"inner": {"value": 7, "other": 8}, "count": 1}), "side": const(3)}),
+                      stage("USE", "int v", "int s", {"s": const(9)})],
+                     [pipeline("LEAF", "int n", "RES res, int side",
+                               [call("MK", binds={"n": self_("n")})], {"res": ref("MK", "res"), "side": ref("MK", "side")}),
+                      pipeline("MIDDLE", "int n", "RES res, int spare",
+                               [call("LEAF", binds={"n": self_("n")})], {"res": ref("LEAF", "res"), "spare": ref("LEAF", "side")}),
+                      pipeline("TOP", "int n", "int s",
+                               [call("MIDDLE", binds={"n": self_("n")}),
+                                call("USE", binds={"v": ref("MIDDLE", "res", "inner", "value")})],
+                               {"s": ref("USE", "s")})], "TOP", {"n": 1}))
+    # two aliases of one stage referenced in ONE binding expression (array literal, struct
+    # literal, return binding)
+    P.append(program("ref_aliases", [mro.struct("PAIR", "int first, int second")],
+                     [stage("AL", "int x", "int bam, int idx", {"bam": const(41), "idx": const(42)}),
+                      stage("USE2", "int[] bams, PAIR p", "int n", {"n": const(2)})],
+                     [pipeline("TOP", "int x", "int[] both, int n",
+                               [call("AL_A", "AL", binds={"x": self_("x")}),
+                                call("AL_B", "AL", binds={"x": self_("x")}),
+                                call("USE2", binds={"bams": mro.arrx(ref("AL_A", "bam"), ref("AL_B", "bam")),
+                                                    "p": mro.objx(first=ref("AL_A", "idx"), second=ref("AL_B", "idx"))})],
+                               {"both": mro.arrx(ref("AL_B", "bam"), ref("AL_A", "bam")), "n": ref("USE2", "n")})], "TOP", {"x": 1}))
     return P
 
 
